@@ -289,6 +289,20 @@ def mem_traces(tid0, root):
     out.append({"tid": tid0, "kind": "mem", "what": "index", "B": B, "line": w, "total": total, "peak": peak, "maxbuf": Track.maxsize,
                 "maxchunk": 0, "maxread": 0})
 
+    # the same through the FastaIndex object, as the command line tools index (auto_load -> run_indexing)
+    for f in (Path(str(path) + ".fai"), Path(str(path) + ".agp")):
+        f.unlink(missing_ok=True)
+    fi0 = FastaIndex(path, B)
+    Track.maxsize = 0
+    tracemalloc.start()
+    fi0.auto_load()
+    _, peak = tracemalloc.get_traced_memory()
+    tracemalloc.stop()
+    out.append({"tid": tid0 + 4, "kind": "mem", "what": "index", "B": B, "line": w, "total": total, "peak": peak, "maxbuf": Track.maxsize,
+                "maxchunk": 0, "maxread": 0})
+    for f in (Path(str(path) + ".fai"), Path(str(path) + ".agp")):
+        f.unlink(missing_ok=True)
+
     class Sink:
         def write(self, b):
             return len(b)
